@@ -183,6 +183,12 @@ def pdu_task(ck, task):
               "fault location omitted (unsupported checksum type)")
         check("condition_code := UNSUPPORTED_CHECKSUM_TYPE (with a fault location)", ("fault location omitted", [("condition_code", lambda it, env: CF.enumc(P, f"{CF.DEFS}.ConditionCode", 0b1011))]),
               "fault location omitted (unsupported checksum type)")
+        # an error code with responses and a fault location, then NO_ERROR: the fault location leaves the octets *and* the lengths;
+        # and back: an error code makes the stored fault location reappear in both
+        check("condition_code := NO_ERROR (with responses and a fault location)", ("fault location", [("condition_code", lambda it, env: CF.enumc(P, f"{CF.DEFS}.ConditionCode", 0))]),
+              "two responses, fault location omitted")
+        check("condition_code := FILE_CHECKSUM_FAILURE (with responses and an omitted fault location)",
+              ("two responses, fault location omitted", [("condition_code", lambda it, env: CF.enumc(P, f"{CF.DEFS}.ConditionCode", 4))]), "fault location")
     elif kind_name == "Metadata":
         def opts(it, env):
             return T("list", tuple(PD.generic_tlv(it, env, P, n)[0] for n in (1, 2)), ty=("list", None))
